@@ -9,7 +9,9 @@ def repo_commits(prefix):
 
 MC = "model_checking"; EX = "exploration"; FE = "fault_enumeration"
 HXNOTE = ("Assumes the reference model (harness/src/model.rs) is the right reading of the statement; verdicts use the public API only, "
-          "the verif_snapshot() hook feeds the deduplication key; bounded by the id/label/data alphabets and configurations listed in the evidence.")
+          "the verif_snapshot() hook feeds the deduplication key; bounded by the id/label/data alphabets and configurations listed in the evidence. "
+          "State kept outside the graph (caches, memos, scratch buffers in thread-locals, statics or behind an address) is exercised by observed histories, a decoy graph "
+          "swapped into the same address, and calls on unrelated objects (failing half-way / complete) before part of the states (DESIGN.md section 2.0), only along those fixed paths.")
 CHECKS = {
  # id: (engine, level, text, note, technique, design_ref)
 }
@@ -31,7 +33,7 @@ add("C10", "HX+family", MC, "Exploration with clone-swap as a transition + clone
 add("C11", "TREEGEN", EX, "Every pair of labelled trees up to a size bound x every data placement x id assignments (incl. recycled slots) x every left: merge on the real code, the graft applied to the reference model as add/bind/put, then every order of reads compared with the model.", GENNOTE + " Checked up to the choice of new ids. The merge inside longer histories is additionally a transition of the HX runs.", "bounded exhaustive enumeration of tree pairs against a reference model", "5/C11")
 add("C12", "TREEGEN+extras", EX, "Every right graph = tree + every combination of up to 3 extras (isolated vertex, isolated vertex with data, detached sub-tree), right = every node: Ok iff the reference says everything present is reachable, else Err naming exactly the unreachable vertices; after an Ok every tree vertex has a present image; after every refusal the left graph plus a stray vertex is itself merged as a right graph under the same oracle.", GENNOTE, "bounded exhaustive enumeration of right graphs against a reachability reference", "5/C12")
 add("C13", "GRAPHGEN+HX", EX, "Every small digraph (all cyclic shapes, shared targets) x every start x EVERY subset of the edge set as predicate x EVERY drain order of slice's work-list (enumerated through the verif choice-point hook), wide shapes on Sodg<16>, and a slice probe on every state of the HX explorations; a hang or stack overflow is caught by the supervisor and reported with the graph in flight.", GENNOTE + " Rejected edges between kept vertices are neither required nor forbidden (the statement does not say).", "bounded exhaustive enumeration of graphs, predicates and work-list orders against a reachability reference", "5/C13")
-add("C14", "PROGGEN", EX, "Every ADD/BIND/PUT program up to a length over literal ids and variables x a menu (short programs: the full product) of legal formattings: complete state after deploy_to equals state after the same direct calls; plus every single-character fault at every position, judged by a conservative three-way reference parser (well-formed / definitely malformed / grey).", GENNOTE + " Grey zone (not judged) is listed in the evidence.", "bounded exhaustive enumeration of programs, renderings and single faults against direct execution", "5/C14")
+add("C14", "PROGGEN+HX", EX, "Scripts as transitions of the history explorer (a well-formed and a failing script, with literal ids and with a $variable, deployed in every explored state - groups, unread data, recycled slots - and followed by every continuation, in lock-step with the reference model) PLUS: Every ADD/BIND/PUT program up to a length over literal ids and variables x a menu (short programs: the full product) of legal formattings: complete state after deploy_to equals state after the same direct calls; plus every single-character fault at every position, judged by a conservative three-way reference parser (well-formed / definitely malformed / grey).", GENNOTE + " Grey zone (not judged) is listed in the evidence.", "bounded exhaustive enumeration of programs, renderings and single faults against direct execution", "5/C14")
 add("C15", "HEXGEN", EX, "Every length across the 8-byte boundary x content patterns x every representation of the same bytes (incl. inline arrays with non-zero padding and heap vectors of short strings) x every accessor, index and (start,end) of the six range kinds: outcome (value or panic) equals the same operation on the byte slice.", GENNOTE, "bounded exhaustive enumeration against the byte-slice reference", "5/C15")
 add("C16", "HEXGEN pairs", EX, "Every pair (a,b) of lengths across the boundary in every representation: bytes(a.concat(b)) == a ++ b, operands unchanged. One known finding (inline left operand shorter than 8 bytes whose result spills), matched by a signature computed from the failing input; any other wrong result is a VIOLATION.", GENNOTE, "bounded exhaustive enumeration of operand pairs against byte-string concatenation", "5/C16")
 add("C17", "LABELGEN", EX, "Every string up to length 10 over alphabets with ASCII, multi-byte Greek, 4-byte characters, alpha, digits, signs and space, classified by the statement (valid: must round-trip; too long / malformed index: must be Err; grey: no panic) + every canonical label value incl. kid() lookups under parsed vs constructed names.", GENNOTE + " Reading of 'longer than 8 characters' and the grey zone are stated in DESIGN.md section 7.", "bounded exhaustive enumeration of label texts and values", "5/C17")
